@@ -279,6 +279,17 @@ def stepLine (st : DState) (line : String) : DState × Option String :=
       | "warm" => match parseWarm? rest with
         | some w => run (.warmStart w) false false
         | none => (st, some "bad-op")
+      | "scaler" =>
+        -- oracle: the fitted StandardScaler of one arm's model (`scaler <arm> mu=<..> sc=<..>`), read from scikit-learn
+        match (do
+          let a ← (← rest.head?).toNat?
+          let mu ← parseRats? (← kv rest "mu")
+          let sc ← parseRats? (← kv rest "sc")
+          some (a, mu, sc)) with
+        | some (a, mu, sc) =>
+          let b' : Bandit Nat := { b with lp := { b.lp with st := b.lp.st.modify a fun r => { r with mu := mu, sc := sc } } }
+          ({ st with bandit := some b' }, none)
+        | none => (st, some "bad-op")
       | _ => (st, some "bad-op")
 
 /-! ### stand-alone function calls (C05, C16): `call <fn> <args…>` -/
